@@ -995,7 +995,13 @@ func (x *Exec) evalBuiltin(st *State, call *ast.CallExpr, name string) T {
 		case *types.Basic:
 			return T{S: app("strlen", v.S), Ty: tyInt}
 		case *types.Chan:
-			return x.havocVal(st, "chanlen", tyInt)
+			if name == "cap" {
+				return T{S: app("chancap", v.S), Ty: tyInt}
+			}
+			// the number of queued elements: unknown, but within the buffer
+			ln := x.havocVal(st, "chanlen", tyInt)
+			st.assume(fmt.Sprintf("(and (<= 0 %s) (<= %s %s))", ln.S, ln.S, app("chancap", v.S)))
+			return ln
 		}
 	case "append":
 		base := x.eval(st, call.Args[0])
@@ -1069,6 +1075,11 @@ func (x *Exec) evalBuiltin(st *State, call *ast.CallExpr, name string) T {
 			return T{S: x.zero(t), Ty: t}
 		case *types.Chan:
 			r := x.alloc(st, "chan")
+			n := "0"
+			if len(call.Args) > 1 {
+				n = x.eval(st, call.Args[1]).S
+			}
+			st.assume(eq(app("chancap", r), n))
 			return T{S: r, Ty: t}
 		}
 	case "new":
@@ -1192,6 +1203,12 @@ func (x *Exec) assumeChanInv(st *State, ce ast.Expr, v T) {
 
 func (x *Exec) checkChanSend(st *State, s *ast.SendStmt, v T) {
 	key := x.chanKey(s.Chan)
+	// send counter: a declared ghost `sent_<channel>` counts the sends on
+	// that channel, so a contract can say "this message is always queued"
+	if g := "sent_" + key; x.prog.ghosts[g] != nil {
+		cur := x.ghostGet(st, g)
+		st.ghost[g] = T{S: "(+ " + cur.S + " 1)", Ty: cur.Ty}
+	}
 	inv := x.prog.chanInvs[x.pkg.path+"."+key]
 	if inv == nil {
 		return
